@@ -31,32 +31,36 @@ theorem parOf_eq {H : Mat} {stabs qubits : Nat → Bool} {root : Nat} {S0 : Nat 
     {p c : Nat} (h : S0 p c = true) : parOf H.length S0 c = p := by
   unfold parOf; rw [par_filter hst T h]; rfl
 
-/-- the edge qubit of a tree edge: unique, and its column is exactly `{p, c}` -/
+/-- the edge qubit of a tree edge (the first member qubit shared by parent and child) is shared
+    by them, and its column is exactly `{p, c}` -/
 theorem edge_spec {H : Mat} {stabs qubits : Nat → Bool} {root : Nat} {S0 : Nat → Nat → Bool}
     (G : GraphOK H) (T : TreeOK H stabs qubits root S0) {p c : Nat} (h : S0 p c = true) :
-    (List.range (ncols H)).filter (fun q => adjq H stabs qubits p c q) = [eOf H stabs qubits p c] ∧
     adjq H stabs qubits p c (eOf H stabs qubits p c) = true ∧
     ∀ s, hb H s (eOf H stabs qubits p c) = true ↔ (s = p ∨ s = c) := by
   obtain ⟨hp, hc, hne, q, hq⟩ := T.mem p c h
   have hq' := (adjq_true H stabs qubits p c q).mp hq
-  have hf : (List.range (ncols H)).filter (fun q => adjq H stabs qubits p c q) = [q] := by
-    apply filter_range_unique _ _ q (G.inRange p q hq'.1).2 hq
-    intro i _ hi
-    have hi' := (adjq_true H stabs qubits p c i).mp hi
-    exact G.simple p c i q hne hi'.1 hi'.2.1 hq'.1 hq'.2.1
-  have he : eOf H stabs qubits p c = q := by unfold eOf; rw [hf]; rfl
-  rw [he]
-  refine ⟨hf, hq, ?_⟩
+  have hmem : q ∈ (List.range (ncols H)).filter (fun q => adjq H stabs qubits p c q) := by
+    rw [mem_filter_range]; exact ⟨(G.inRange p q hq'.1).2, hq⟩
+  have he : adjq H stabs qubits p c (eOf H stabs qubits p c) = true := by
+    unfold eOf
+    cases hf : (List.range (ncols H)).filter (fun q => adjq H stabs qubits p c q) with
+    | nil => rw [hf] at hmem; simp at hmem
+    | cons a l =>
+      have ha : a ∈ (List.range (ncols H)).filter (fun q => adjq H stabs qubits p c q) := by
+        rw [hf]; simp
+      exact (List.mem_filter.mp ha).2
+  have he' := (adjq_true H stabs qubits p c _).mp he
+  refine ⟨he, ?_⟩
   intro s
   constructor
   · intro hs
-    rcases G.col2 q s p c hs hq'.1 hq'.2.1 with h1 | h1 | h1
+    rcases G.col2 _ s p c hs he'.1 he'.2.1 with h1 | h1 | h1
     · exact Or.inl h1
     · exact Or.inr h1
     · exact absurd h1 hne
   · rintro (rfl | rfl)
-    · exact hq'.1
-    · exact hq'.2.1
+    · exact he'.1
+    · exact he'.2.1
 
 /-! ### facts that follow from the invariant -/
 
